@@ -18,6 +18,7 @@
    A schedule is therefore: how the entry range was cut into jobs, the order in which the blocks
    reached `object_streams`, and the order in which ids reached `zero_length_streams`.
 
+   The last loop adds a member only when no object of its NUMBER is present (61ef95a, C07).
    `merge_pinned` is the merge as it was before commits f28e935 "fix: object streams are merged in
    cross-reference order" and 44beb46 (blocks flattened in completion order, no regard for the container
    the xref names); it is kept for the refutation of the property on that code and for the conditional theorem. *)
@@ -155,10 +156,20 @@ Fixpoint xref_container (xc : list (N * N)) (num : N) : option N :=
 Definition named (xc : list (N * N)) (key : N) (m : member) : bool :=
   match xref_container xc (fst (fst m)) with Some c => (c =? key)%N | None => false end.
 
-(* sort by key; pass A: the members the xref places in their own container; pass B: the remaining members *)
+(* `objects.range((num, 0)..=(num, u16::MAX)).next().is_none()` : no object of that number, whatever generation *)
+Definition has_number {V} (m : list (oid * V)) (num : N) : bool :=
+  existsb (fun e => (fst (fst e) =? num)%N) m.
+(* the final loop (since 61ef95a): a remaining member is inserted only when its number is not present yet *)
+Fixpoint merge_rest (m : xmap) (ms : list member) : xmap :=
+  match ms with
+  | [] => m
+  | (i, o) :: ms' => merge_rest (if has_number m (fst i) then m else pinsert m i (o, None)) ms'
+  end.
+
+(* sort by key; pass A (or_insert): the members the xref places in their own container; pass B: the remaining members *)
 Definition merge (xc : list (N * N)) (bl : list block) (base : xmap) : xmap :=
   let sb := sort_blocks bl in
-  merge_members
+  merge_rest
     (merge_members base (flat_map (fun b => filter (named xc (fst b)) (snd b)) sb))
     (flat_map (fun b => filter (fun m => negb (named xc (fst b) m)) (snd b)) sb).
 
